@@ -230,6 +230,17 @@ class SymBool:
     def __repr__(self):
         return "SymBool(%s)" % self.e
 
+    def __int__(self):
+        return 1 if bool(self) else 0
+    __index__ = __int__
+
+    def __float__(self):
+        return 1.0 if bool(self) else 0.0
+
+    def floor(self):
+        return Sym.lift(self)
+    ceil = rint = floor
+
 
 def _b(o):
     if isinstance(o, SymBool):
@@ -274,6 +285,8 @@ class Sym:
     def lift(o):
         if isinstance(o, Sym):
             return o
+        if isinstance(o, SymBool):
+            return Sym(1 if bool(o) else 0)      # numeric use of a symbolic truth value: decided here (forks)
         if isinstance(o, (complex, numpy.complexfloating)):
             return Sym(o.real, o.imag)
         if isinstance(o, numpy.ndarray) and o.ndim == 0:
